@@ -223,6 +223,22 @@ def draw(rng, nd, with_sel, frozen):
             kw["m%d%d" % (i + 1, j + 1)] = m
             ms.append(m)
         per.append((nu, ms, gamma, h))
+    # ties across populations (equal sizes / selection / dominance, symmetric migration), any subset of the groups
+    if nd > 1 and with_sel and rng.random() < 0.3:
+        tie = {g: bool(rng.random() < 0.6) for g in ("nu", "gamma", "h", "m")}
+        g0 = kw[gnames[0]] if kw[gnames[0]] != 0 else 3.0
+        for i in range(nd):
+            if tie["nu"]:
+                kw[nus[i]] = kw[nus[0]]
+            if tie["gamma"]:
+                kw[gnames[i]] = g0
+            if tie["h"]:
+                kw[hnames[i]] = kw[hnames[0]]
+        if tie["m"]:
+            for i in range(nd):
+                for j in range(i + 1, nd):
+                    kw["m%d%d" % (j + 1, i + 1)] = kw["m%d%d" % (i + 1, j + 1)]
+        per = [(kw[nus[i]], [kw["m%d%d" % (i + 1, j + 1)] for j in range(nd) if j != i], kw[gnames[i]], kw[hnames[i]]) for i in range(nd)]
     kw["theta0"] = float(rng.uniform(0.2, 5))
     return kw, per
 
